@@ -170,6 +170,11 @@ func mapStreamX(cfg *Config, name string, collide bool) *hx.Stats {
 			// first-level collisions only, values just over half the element limit, grow-then-shrink
 			mode, valProf, opProf = 7, 3, 1
 		}
+		if collide && !e.persist && p%4 == 2 {
+			// collision groups that grow ONLY through overwrites: small values first, then existing keys
+			// are overwritten with values near the element limit and no new key enters the group
+			valProf, opProf = 0, 3
+		}
 		runMapProgram(e, nOps, mode, valProf, opProf)
 		st.Programs++
 		seen[fmt.Sprintf("%d/%d/%d", T, mode, e.step)] = true
@@ -309,6 +314,27 @@ func runMapProgram(e *mapEnv, nOps, mode, valProf, opProf int) {
 					op = "rem"
 				} else {
 					op = "read"
+				}
+			}
+		case 3: // fill with small values, then overwrite present keys with large ones
+			if e.step < nOps/3 {
+				if r < 85 {
+					op = "set"
+				} else {
+					op = "read"
+				}
+			} else {
+				op = "read"
+				if r < 80 && len(e.shadow) > 0 {
+					op = "set"
+					valProf = 2
+					pk := make([]hx.TV, 0, len(e.shadow))
+					for x := range e.shadow {
+						pk = append(pk, x)
+					}
+					sort.Slice(pk, func(i, j int) bool { return pk[i].Pay < pk[j].Pay })
+					k = pk[e.rng.Intn(len(pk))]
+					present = true
 				}
 			}
 		default:
